@@ -95,7 +95,7 @@ impl Group for C07 {
                 "hold 2 0 1999000 1000000 0 0 1",
                 "close2 1998000 1000000 1 20 22 0 0 1 20 22 0 0",
             ]),
-            // finding C07-S1: with max_feerate_per_kw = u32::MAX a funder close burning 31 BTC as fee is signed
+            // former finding S1 (fixed by 3751e9c): with max_feerate_per_kw = u32::MAX a funder close burning 31 BTC as fee must be refused
             v(&[
                 "policy 0 4 2016 10000000000 10000 1000 16777216 0 253 4294967295 222000 0",
                 "setup 1 5000000000 0 6 7 1 0 0 0",
